@@ -40,88 +40,154 @@ def run(ctx):
     if skip_mc:
         ctx.notes.append("exhaustive TLC runs skipped (VERIF_KV_SKIP_MC)")
 
-    # 1. the design, exhaustively
-    w = max(2, min(ctx.cores, 12))
+    # 1. the design, exhaustively - as parallel TLC jobs that run while the harness parts (2-4) proceed
+    bg = Jobs(ctx)
     if not skip_mc:
-        ctx.tlc_expect_ok("kv", "KeyValueMC", "KeyValue_mc_lww_t.cfg" if thorough else "KeyValue_mc_lww.cfg",
-                          timeout=6000, workers=w, name="mc-lww")
-        ctx.tlc_expect_ok("kv", "KeyValueMC", "KeyValue_mc_auth.cfg", timeout=3000, workers=w, name="mc-auth")
+        big = max(2, min(ctx.cores - 4, 12))
+        if thorough:
+            bg.start(expect_ok, "KeyValueMC", "KeyValue_mc_lww_t.cfg", workers=big, timeout=9000, name="mc-lww")
+            bg.start(expect_ok, "KeyValueMC", "KeyValue_mc_local_t.cfg", workers=4, timeout=9000, name="mc-local")
+            bg.start(expect_ok, "KeyValueMC", "KeyValue_mc_auth_t.cfg", workers=4, timeout=6000, name="mc-auth")
+        else:
+            # (quick: the small LWW universe, faults at commit only in mc-auth, local Sets in mc-xauth)
+            bg.start(expect_ok, "KeyValueMC", "KeyValue_mc_lww.cfg", workers=max(2, min(ctx.cores // 2, 6)), timeout=6000, name="mc-lww")
+            bg.start(expect_ok, "KeyValueMC", "KeyValue_mc_auth.cfg", workers=max(2, min(ctx.cores // 3, 5)), timeout=6000, name="mc-auth")
         # every action of the spec is taken in this one (coverage: a never-taken action fails the run as vacuous)
-        ctx.tlc_expect_ok("kv", "KeyValueMC", "KeyValue_mc_xauth.cfg", coverage=True, timeout=3000, workers=w, name="mc-xauth")
-        if thorough:  # (quick: local Sets are in mc-xauth; KeyValue_mc_local.cfg is the batches-of-1 variant for hand runs)
-            ctx.tlc_expect_ok("kv", "KeyValueMC", "KeyValue_mc_local_t.cfg", timeout=6000, workers=w, name="mc-local")
+        bg.start(expect_ok, "KeyValueMC", "KeyValue_mc_xauth.cfg", workers=2, coverage=True, timeout=6000, name="mc-xauth")
+        if thorough:
+            bg.start(rest_of_thorough)
 
-    # 4a. the spec must keep telling the unrepaired behaviours apart (cheap: TLC stops at the first violation)
-    if thorough and not skip_mc:
-        for cfg, inv in (("label", "AuthenticOnly"), ("perm", "AuthenticOnly"), ("ts", "OneExchangeEqualises"),
-                         ("rollback", "IndexMatchesStore")):
-            res = ctx.tlc("kv", "KeyValueMC", "KeyValue_asis_%s.cfg" % cfg, timeout=900, workers=2, count=False, name="asis-" + cfg)
-            if res.timed_out or res.error != "invariant" or res.error_name != inv:
-                raise broken("as-is configuration %s: expected TLC to find a violation of %s, got %s %s\n%s" % (
-                    cfg, inv, res.error, res.error_name, res.out[-2000:]))
+    try:
+        # 2. spec -> code
+        emit = os.path.join(ctx.scratch, "emit")
+        os.makedirs(emit)
+        # _q: 2 stores with different ACL knowledge, the whole cast; _f: small universe, late faults (rollback paths);
+        # _t: 3 stores (one a reader that holds r3). TLC's simulator emits every successor of the last step,
+        # so a trace yields several behaviours that share a prefix.
+        gens = [("KeyValueGen_q.cfg", 30 if not thorough else 150), ("KeyValueGen_f.cfg", 12 if not thorough else 80),
+                ("KeyValueGen_t.cfg", 0 if not thorough else 120)]
+        def collect(tag, sub):
+            # every TLC run numbers its files from 1: move them under a distinct prefix
+            for f in sorted(os.listdir(sub)):
+                os.rename(os.path.join(sub, f), os.path.join(emit, "%s_%s" % (tag, f)))
 
-    # side lemma (nothing depends on it): the LWW summary is a semilattice merge
-    if thorough and not skip_mc:
-        ctx.tlc_expect_ok("kv", "KVMerge", "KVMerge.cfg", workers=1, timeout=600, count=False, name="lemma-semilattice-tlc")
-        apalache_lemma(ctx)
+        fg = Jobs(ctx)
 
-    # 2. spec -> code
-    emit = os.path.join(ctx.scratch, "emit")
-    os.makedirs(emit)
-    # _q: 2 stores with different ACL knowledge, the whole cast; _f: small universe, late faults (rollback paths);
-    # _t: 3 stores (one a reader that holds r3). TLC's simulator emits every successor of the last step,
-    # so a trace yields several behaviours that share a prefix.
-    gens = [("KeyValueGen_q.cfg", 30 if not thorough else 150), ("KeyValueGen_f.cfg", 12 if not thorough else 80),
-            ("KeyValueGen_t.cfg", 0 if not thorough else 120)]
-    def collect(tag, sub):
-        # every TLC run numbers its files from 1: move them under a distinct prefix
-        for f in sorted(os.listdir(sub)):
-            os.rename(os.path.join(sub, f), os.path.join(emit, "%s_%s" % (tag, f)))
+        def gen(tag, cfg, num, seed):
+            sub = os.path.join(ctx.scratch, "emit-" + tag)
+            os.makedirs(sub)
+            # num = None: exhaustive (every 2-step history of pushes, batches <= 2 over 3 timestamps of one slot, with
+            # and without a failing commit - the undo of a failed multi-upsert write needs such short specific histories)
+            res = ctx.tlc("kv", "KeyValueGen", cfg, workers=1, simulate=num, depth=40 if num else None, seed=seed, deadlock=False,
+                          env={"VERIF_EMIT_DIR": sub}, timeout=2400, count=False, name="gen-" + cfg)
+            if res.timed_out or res.error:
+                raise broken("behaviour generation failed (%s %s)\n%s" % (res.error, res.error_name, res.out[-3000:]))
+            collect(tag, sub)
 
-    for i, (cfg, num) in enumerate(gens):
-        if num == 0:
-            continue
-        sub = os.path.join(ctx.scratch, "emit-%d" % i)
-        os.makedirs(sub)
-        res = ctx.tlc("kv", "KeyValueGen", cfg, workers=1, simulate=num, depth=40, seed=ctx.seed * 10 + i, deadlock=False,
-                      env={"VERIF_EMIT_DIR": sub}, timeout=2400, count=False, name="gen-" + cfg)
-        if res.timed_out or res.error:
-            raise broken("behaviour generation failed (%s %s)\n%s" % (res.error, res.error_name, res.out[-3000:]))
-        collect("g%d" % i, sub)
-    # exhaustive: every 2-step history of pushes (batches <= 2 over 3 timestamps of one slot, with and without a
-    # failing commit) - the undo of a failed multi-upsert write needs exactly such short, specific histories
-    sub = os.path.join(ctx.scratch, "emit-x")
-    os.makedirs(sub)
-    res = ctx.tlc("kv", "KeyValueGen", "KeyValueGen_x.cfg", workers=1, deadlock=False, env={"VERIF_EMIT_DIR": sub},
-                  timeout=1200, count=False, name="gen-KeyValueGen_x.cfg")
-    if res.timed_out or res.error:
-        raise broken("behaviour generation failed (%s %s)\n%s" % (res.error, res.error_name, res.out[-3000:]))
-    collect("x", sub)
-    n = len(os.listdir(emit))
-    if n == 0:
-        raise broken("no behaviours emitted")
-    ctx.cov["behaviours_generated"] = n
-    ctx.go_test("./kv", run="TestReplay$", env={"VERIF_BEHAVIOURS": emit, "VERIF_MAX_BEHAVIOURS": 8000 if thorough else 900},
-                timeout=2400, name="replay")
+        for i, (cfg, num) in enumerate(gens):
+            if num:
+                fg.start(gen, "g%d" % i, cfg, num, ctx.seed * 10 + i)
+        fg.start(gen, "x", "KeyValueGen_x.cfg", None, None)
+        fg.join()
+        n = len(os.listdir(emit))
+        if n == 0:
+            raise broken("no behaviours emitted")
+        ctx.cov["behaviours_generated"] = n
+        ctx.go_test("./kv", run="TestReplay$", env={"VERIF_BEHAVIOURS": emit, "VERIF_MAX_BEHAVIOURS": 8000 if thorough else 900},
+                    timeout=2400, name="replay")
 
-    # 3. code -> spec
-    trace = os.path.join(ctx.scratch, "kv-trace.ndjson")
-    rep = ctx.go_test("./kv", run="TestRecord$", env={"VERIF_TRACE_OUT": trace, "VERIF_RUNS": 150 if thorough else 25,
-                                                      "VERIF_STEPS": 40 if thorough else 30}, timeout=2400, name="record")
-    ctx.cov["trace_events_validated"] = rep["extra"].get("trace_events", 0)
-    validate_trace(ctx, trace)
+        # 3. code -> spec
+        trace = os.path.join(ctx.scratch, "kv-trace.ndjson")
+        rep = ctx.go_test("./kv", run="TestRecord$", env={"VERIF_TRACE_OUT": trace, "VERIF_RUNS": 150 if thorough else 25,
+                                                          "VERIF_STEPS": 40 if thorough else 30}, timeout=2400, name="record")
+        ctx.cov["trace_events_validated"] = rep["extra"].get("trace_events", 0)
+        validate_trace(ctx, trace)
 
-    # 4b. large stores, multi-batch pulls, many receivers
-    if thorough:
-        ctx.go_test("./kv", run="TestLarge$", timeout=2400, name="large")
-    else:
-        ctx.go_test("./kv", run="TestLarge$", env={"VERIF_LARGE_SLOTS": 150}, timeout=900, name="large")
+        # 4b. large stores, multi-batch pulls, many receivers
+        if thorough:
+            ctx.go_test("./kv", run="TestLarge$", timeout=2400, name="large")
+        else:
+            ctx.go_test("./kv", run="TestLarge$", env={"VERIF_LARGE_SLOTS": 150}, timeout=900, name="large")
+
+    except BaseException:
+        # do not leave the background TLC jobs running when the harness part ends the check early
+        import subprocess
+        subprocess.run(["pkill", "-f", ctx.scratch], check=False)
+        drop_placeholders(ctx)
+        raise
+    try:
+        bg.join()
+    finally:
+        drop_placeholders(ctx)
 
     ctx.assume("timestamps per slot are distinct among the values a store may hold (the property's premise); "
                "equal timestamps keep the first arrival")
     ctx.assume("ACL knowledge of a store is fixed during a run; the ACL history is the fixed cast of KeyValueMC.tla")
     ctx.assume("one sync exchange at a time per pair of stores; ldiff's range protocol is taken as exact for the "
                "small indexes used here (C07/C08 cover it)")
+
+
+class Jobs:
+    """Parallel ctx.tlc jobs. ctx.tlc names its scratch copy after len(ctx.cov['tlc_runs']) when it starts, so every
+    start is preceded by a placeholder entry (removed at join) and a short pause - no two jobs get the same name."""
+
+    def __init__(self, ctx):
+        self.ctx, self.threads, self.errors, self.ph = ctx, [], [], []
+
+    def start(self, fn, *a, **kw):
+        import threading
+        import time
+        ph = {"name": "(starting)", "placeholder": True}
+        self.ph.append(ph)
+        self.ctx.cov["tlc_runs"].append(ph)
+
+        def body():
+            try:
+                fn(self.ctx, *a, **kw) if fn in (expect_ok, rest_of_thorough) else fn(*a, **kw)
+            except BaseException as ex:  # noqa
+                self.errors.append(ex)
+
+        t = threading.Thread(target=body, daemon=True)
+        t.start()
+        self.threads.append(t)
+        time.sleep(1.0)
+
+    def join(self):
+        # (placeholders stay until drop_placeholders at the end of the check: removing them earlier would let a
+        # later run reuse the name of an earlier scratch copy)
+        for t in self.threads:
+            t.join()
+        self.threads = []
+        if self.errors:
+            raise self.errors[0]
+
+
+def drop_placeholders(ctx):
+    ctx.cov["tlc_runs"][:] = [r for r in ctx.cov["tlc_runs"] if not r.get("placeholder")]
+
+
+_count_lock = __import__("threading").Lock()
+
+
+def expect_ok(ctx, module, cfg, **kw):
+    res = ctx.tlc_expect_ok("kv", module, cfg, count=False, **kw)
+    with _count_lock:
+        ctx.cov["states"] += res.distinct
+        ctx.cov["transitions"] += res.generated
+    return res
+
+
+def rest_of_thorough(ctx):
+    # the spec must keep telling the unrepaired behaviours apart (cheap: TLC stops at the first violation)
+    for cfg, inv in (("label", "AuthenticOnly"), ("perm", "AuthenticOnly"), ("ts", "OneExchangeEqualises"),
+                     ("rollback", "IndexMatchesStore")):
+        res = ctx.tlc("kv", "KeyValueMC", "KeyValue_asis_%s.cfg" % cfg, timeout=1800, workers=2, count=False, name="asis-" + cfg)
+        if res.timed_out or res.error != "invariant" or res.error_name != inv:
+            raise broken("as-is configuration %s: expected TLC to find a violation of %s, got %s %s\n%s" % (
+                cfg, inv, res.error, res.error_name, res.out[-2000:]))
+    # side lemma (nothing depends on it): the LWW summary is a semilattice merge
+    ctx.tlc_expect_ok("kv", "KVMerge", "KVMerge.cfg", workers=1, timeout=900, count=False, name="lemma-semilattice-tlc")
+    apalache_lemma(ctx)
 
 
 def apalache_lemma(ctx):
